@@ -13,4 +13,5 @@ PROPERTY NoRegress
 PROPERTY StaleIsNoop
 PROPERTY Frozen
 PROPERTY LoadNotOlder
+PROPERTY LoadEpoch
 PROPERTY DupIsNoop
